@@ -405,6 +405,33 @@ func (w *world) scripted() {
 	}
 }
 
+// heldPrefix: a chain that fits is filed again while one of its prefixes is still held and others are not;
+// the held one is not refreshed, so the chain's own remaining prefixes push it out (known finding F10).
+func (w *world) heldPrefix() {
+	a, b, c := []int{0, epochDiv}, []int{0, epochDiv, 2 * epochDiv}, []int{1}
+	w.reset(3, 3, 2, 10, 0, nil, 100, false)
+	w.admit(0, a) // discovered (newest first): <0>, <0,4>
+	w.admit(0, b) // <0,4,8>, <0>, <0,4>
+	w.admit(0, c) // <1>, <0,4,8>, <0>           (<0,4> evicted)
+	w.admit(0, b) // <0,4,8> held and oldest-but-one: re-adding <0,4> and <0> evicts it
+	for j := 3; j >= 1; j-- {
+		w.lookup(0, b[:j])
+	}
+	w.reset(3, 3, 2, 10, 0, nil, 100, false)
+	w.own(0, a)
+	w.own(0, b)
+	w.lookup(0, c) // a placeholder takes the place of <0,4>
+	w.own(0, b)
+	for j := 3; j >= 1; j-- {
+		w.lookup(0, b[:j])
+	}
+	w.reset(3, 3, 2, 10, 0, nil, 100, false)
+	w.deliver("ok", 1, a, 100)
+	w.deliver("ok", 1, b, 100)
+	w.deliver("ok", 1, c, 100)
+	w.deliver("ok", 1, b, 100)
+}
+
 // validation table: every shape x instance window x timestamp window x base agreement x input presence
 func (w *world) validation() {
 	look, age := 3, 10
@@ -555,6 +582,7 @@ func TestCXHistories(t *testing.T) {
 	defer done()
 	if envInt("VERIF_SCRIPTED", 1) == 1 {
 		w.scripted()
+		w.heldPrefix()
 		w.validation()
 		w.longChains()
 	}
